@@ -64,6 +64,7 @@ type Event struct {
 	fire     func()
 	armed    bool
 	period   int64
+	inAct    bool
 }
 
 const (
@@ -78,6 +79,8 @@ var (
 	cur      *Thread
 	threads  []*Thread
 	events   []*Event
+	actT     []*Thread // unfinished threads (compacted periodically), ascending id
+	actE     []*Event  // armed events (compacted periodically)
 	nowNS    int64
 	exec     *Exec
 	prefix   []int
@@ -85,6 +88,7 @@ var (
 	cfg      *Config
 	staleCnt int32
 	stepCap  int
+	blockedSince int64
 	curLive  *int32
 	// LeakedExecs counts executions whose goroutines had not all unwound when the next one started.
 	LeakedExecs int
@@ -107,6 +111,7 @@ type Point struct {
 type Exec struct {
 	Points    []Point
 	Deadlock  bool
+	Starved   bool // Deadlock was declared because every worker stayed blocked for StarveNS of virtual time
 	Horizon   bool
 	Blocked   []string // labels of blocked non-daemon threads at deadlock
 	Panics    []string
@@ -134,6 +139,8 @@ type Config struct {
 	NoPreempt func(label string) bool // points whose label matches are not preemption candidates
 	Probe     func(name string, a ...any)
 	OnPoint   func() // observation hook run by the scheduler at every decision (all threads are parked)
+	NoRecord  bool   // do not record decision points (sequential harnesses that never branch; choice 0 everywhere)
+	StarveNS  int64  // virtual time all worker threads may stay blocked while only timers/daemons run (default 600 s)
 }
 
 //go:norace
@@ -305,10 +312,14 @@ func decide() int32 {
 			recordBlocked()
 			return finish()
 		}
+		if exec.Steps&63 == 0 {
+			compact()
+		}
 		var progs, envs []int
 		lastEnabled := false
 		alldone := true
-		for _, t := range threads {
+		workerEnabled := false
+		for _, t := range actT {
 			if t.done {
 				continue
 			}
@@ -316,6 +327,9 @@ func decide() int32 {
 				alldone = false
 			}
 			if t.obj == nil || t.obj.VrtReady(t.kind) {
+				if !t.daemon {
+					workerEnabled = true
+				}
 				if t.id == last {
 					lastEnabled = true
 				} else {
@@ -326,17 +340,35 @@ func decide() int32 {
 		if alldone {
 			return finish()
 		}
+		if workerEnabled {
+			blockedSince = nowNS
+		} else {
+			lim := cfg.StarveNS
+			if lim == 0 {
+				lim = 600e9
+			}
+			if nowNS-blockedSince > lim {
+				// every worker thread has been blocked for 10 virtual minutes while only periodic timers and
+				// daemons ran: nothing in hydraide waits that long on a timer, so nothing will ever wake them
+				exec.Deadlock, exec.Starved = true, true
+				recordBlocked()
+				return finish()
+			}
+		}
 		// environment events: untimed ones always; timed ones only with the earliest deadline
 		minDL := int64(-1)
-		for _, e := range events {
+		for _, e := range actE {
 			if e.armed && e.timed && (minDL < 0 || e.deadline < minDL) {
 				minDL = e.deadline
 			}
 		}
-		for _, e := range events {
+		for _, e := range actE {
 			if e.armed && (!e.timed || e.deadline == minDL) {
 				envs = append(envs, e.id)
 			}
+		}
+		if len(envs) > 1 {
+			sort.Ints(envs)
 		}
 		anyProg := lastEnabled || len(progs) > 0
 		if !anyProg && len(envs) == 0 {
@@ -379,11 +411,13 @@ func decide() int32 {
 					c = 0
 				}
 			}
-			p := Point{N: len(alt), Chosen: c, Cost: cost, Alt: alt, NoPreemt: npre}
-			if cfg.StateKey != nil && i >= len(prefix)-1 {
-				p.Key = stateKey() // not needed inside the replayed prefix: the explorer only branches after it
+			if !cfg.NoRecord {
+				p := Point{N: len(alt), Chosen: c, Cost: cost, Alt: alt, NoPreemt: npre}
+				if cfg.StateKey != nil && i >= len(prefix)-1 {
+					p.Key = stateKey() // not needed inside the replayed prefix: the explorer only branches after it
+				}
+				exec.Points = append(exec.Points, p)
 			}
-			exec.Points = append(exec.Points, p)
 		}
 		exec.Cost += int(cost[c])
 		a := alt[c]
@@ -405,14 +439,45 @@ func decide() int32 {
 	}
 }
 
+// compact drops finished threads and disarmed events from the lists the scheduler iterates over (executions that
+// run hundreds of histories on one server accumulate thousands of them).
+//
+//go:norace
+func compact() {
+	k := 0
+	for _, t := range actT {
+		if !t.done {
+			actT[k] = t
+			k++
+		}
+	}
+	for i := k; i < len(actT); i++ {
+		actT[i] = nil
+	}
+	actT = actT[:k]
+	k = 0
+	for _, e := range actE {
+		if e.armed {
+			actE[k] = e
+			k++
+		} else {
+			e.inAct = false
+		}
+	}
+	for i := k; i < len(actE); i++ {
+		actE[i] = nil
+	}
+	actE = actE[:k]
+}
+
 //go:norace
 func stateKey() string {
 	var b strings.Builder
 	b.WriteString(cfg.StateKey())
-	for _, t := range threads {
+	for _, t := range actT {
 		fmt.Fprintf(&b, "|%d:%d:%v:%v", t.id, t.steps, t.done, t.done || t.obj == nil || t.obj.VrtReady(t.kind))
 	}
-	for _, e := range events {
+	for _, e := range actE {
 		if e.armed {
 			fmt.Fprintf(&b, "|e%d", e.id)
 		}
@@ -422,7 +487,7 @@ func stateKey() string {
 
 //go:norace
 func recordBlocked() {
-	for _, t := range threads {
+	for _, t := range actT {
 		if !t.done && !t.daemon {
 			exec.Blocked = append(exec.Blocked, fmt.Sprintf("t%d(%s):%s", t.id, t.Name, t.label))
 		}
@@ -459,8 +524,9 @@ func fireEvent(e *Event) {
 //
 //go:norace
 func NewEvent(name string, timed bool, afterNS int64, periodNS int64, fire func()) *Event {
-	e := &Event{id: len(events), name: name, timed: timed, deadline: nowNS + afterNS, fire: fire, armed: true, period: periodNS}
+	e := &Event{id: len(events), name: name, timed: timed, deadline: nowNS + afterNS, fire: fire, armed: true, period: periodNS, inAct: true}
 	events = append(events, e)
+	actE = append(actE, e)
 	return e
 }
 
@@ -476,6 +542,10 @@ func (e *Event) Reset(afterNS int64) bool {
 	was := e.armed
 	e.armed = true
 	e.deadline = nowNS + afterNS
+	if !e.inAct {
+		e.inAct = true
+		actE = append(actE, e)
+	}
 	return was
 }
 
@@ -491,6 +561,7 @@ func spawn(fn func(), daemon bool, name string) *Thread {
 		t.npre = true
 	}
 	threads = append(threads, t)
+	actT = append(actT, t)
 	if len(threads) > exec.MaxThread {
 		exec.MaxThread = len(threads)
 	}
@@ -508,18 +579,25 @@ func isDaemonSite() bool {
 	if len(DaemonSites) == 0 {
 		return false
 	}
-	var pcs [1]uintptr
-	if runtime.Callers(4, pcs[:]) == 0 {
+	// the spawning function is one of the first frames above Go0 (generic wrappers and inlining shift it)
+	var pcs [6]uintptr
+	n := runtime.Callers(3, pcs[:])
+	if n == 0 {
 		return false
 	}
-	f := runtime.FuncForPC(pcs[0])
-	if f == nil {
-		return false
-	}
-	n := f.Name()
-	for _, s := range DaemonSites {
-		if strings.Contains(n, s) {
-			return true
+	fr := runtime.CallersFrames(pcs[:n])
+	for i := 0; i < 5; i++ {
+		f, more := fr.Next()
+		if !strings.Contains(f.Function, "/vshim/") {
+			for _, s := range DaemonSites {
+				if strings.Contains(f.Function, s) {
+					return true
+				}
+			}
+			return false // only the nearest frame outside the shims decides
+		}
+		if !more {
+			break
 		}
 	}
 	return false
@@ -616,8 +694,11 @@ func RunOnce(c *Config, pfx []int, body func()) *Exec {
 	gen++
 	threads = nil
 	events = nil
+	actT = nil
+	actE = nil
 	resetChans()
 	nowNS = 0
+	blockedSince = 0
 	prefix = pfx
 	exec = &Exec{}
 	last = -1
@@ -815,9 +896,38 @@ var ForceVirtualClock bool
 //
 //go:norace
 func PendingKinds(f func(name string, kind int, daemon bool)) {
-	for _, t := range threads {
+	for _, t := range actT {
 		if !t.done {
 			f(t.Name, t.kind, t.daemon)
 		}
 	}
+}
+
+// SetClock sets the virtual clock to Epoch+ns (harnesses that run many independent histories inside one
+// execution restart the clock for each, so that server-assigned timestamps are comparable between histories).
+//
+//go:norace
+func SetClock(ns int64) { nowNS = ns; blockedSince = ns }
+
+type drainWait struct{ self *Thread }
+
+//go:norace
+func (d *drainWait) VrtReady(int) bool {
+	for _, t := range actT {
+		if t != d.self && !t.done && (t.obj == nil || t.obj.VrtReady(t.kind)) {
+			return false
+		}
+	}
+	return true
+}
+
+// Drain parks the calling thread until no other thread can run (no environment event is fired for it): background
+// goroutines that were told to stop get the chance to finish. Not a preemption candidate.
+//
+//go:norace
+func Drain() {
+	if !Managed() {
+		return
+	}
+	Sched(KYield, &drainWait{cur}, "drain")
 }
